@@ -165,6 +165,7 @@ def run(ck):
 
     sequential_oracles(ck)
     glob_correspondence(ck, random.Random(ck.seed * 31 + 14), 6000 if thorough else 1500)
+    callback_oracle(ck)
 
     # ---------- enumerate schedules of the real code
     plan = THOROUGH if thorough else QUICK
@@ -296,6 +297,16 @@ def fallback_search(ck, thorough):
             for sig, what in x.get("oracle", []):
                 ck.fail_input(sig, what + " | scenario: %s (generic statement-level points)" % job["scenario"]["name"],
                               {"scenario": job["scenario"], "schedule": x["schedule"], "points": "lines"})
+    # pattern routing end to end (the standard library's fnmatch as referee) and callback subscriptions
+    import fnmatch as _fn
+    rng = random.Random(ck.seed * 31 + 14)
+    pats = ["jobs.*.cfg", "a*a", "ab*ba", "*.x.*", "x.*x.", "jobs.[12].cfg", "jobs.?.cfg", "*", "a*", "a", "[!a]*", "*.[sc]*"]
+    names = ["jobs.1.cfg", "jobs.cfg", "jobs..cfg", "a", "aa", "aba", "abba", ".x.", "x.x.", "jobs.3.cfg", "data.s1", "b", "ab"]
+    pairs = [(p_, c, None) for p_ in pats for c in names]
+    pairs += [("".join(rng.choice("ab.1*?") for _ in range(rng.randint(1, 5))), "".join(rng.choice("ab.1") for _ in range(rng.randint(0, 4))), None)
+              for _ in range(600)]
+    routing_oracle(ck, pairs)
+    callback_oracle(ck)
     ck.cov["evaluations"] = n
     ck.notes["fallback"] = "anchored analysis failed; %d schedules explored with generic points + sequential sequences" % n
 
@@ -309,6 +320,65 @@ Eval vm_compute in gbad cs 0.
 """
 
 
+def routing_oracle(ck, kept):
+    """Direct oracle, end to end: one message published on channel c reaches a fresh subscription for pattern p exactly when the
+    shell-style pattern matches the name (the standard library's fnmatch is the referee), and stays queued otherwise."""
+    import fnmatch as _fn
+    from semantiva.execution.transport.in_memory import InMemorySemantivaTransport
+    n = 0
+    for p_, c, _ in kept:
+        try:
+            want = bool(_fn.fnmatch(c, p_))
+            t = InMemorySemantivaTransport()
+            t.publish(c, data=1.0, context={})
+            got = len(list(t.subscribe(p_)))
+            left = sum(len(q) for q, _l in t._queues.values())
+        except Exception:  # noqa
+            continue
+        n += 1
+        if got != (1 if want else 0) or got + left != 1:
+            ck.fail_input("C14:routing:subscription-yields-%s" % ("a-channel-its-pattern-does-not-match" if got and not want else "nothing-for-a-matching-channel"
+                                                                  if want and not got else "message-lost-or-duplicated"),
+                          "one message published on %r; a subscription for %r yields %d message(s), %d left queued (the pattern %s the name)"
+                          % (c, p_, got, left, "matches" if want else "does not match"), {"kind": "routing", "pattern": p_, "channel": c})
+            break
+    ck.notes["routing_oracle_cases"] = n
+
+
+def callback_oracle(ck):
+    """Direct oracle: a callback subscription whose callback raises on the k-th message.  The runner thread ends there; every message
+    is still delivered exactly once -- to the callback (including the one it raised on) or to a later plain consumer, in order."""
+    import threading
+    from semantiva.execution.transport.in_memory import InMemorySemantivaTransport
+    old_hook = threading.excepthook
+    threading.excepthook = lambda a: None
+    try:
+        for total, k in ((5, 1), (5, 0), (4, 3), (3, 5)):
+            t = InMemorySemantivaTransport()
+            for i in range(total):
+                t.publish("evt.%d" % (i % 2), data=float(i), context={})
+            got = []
+
+            def cb(msg, got=got, k=k):
+                got.append(msg.data)
+                if len(got) - 1 == k:
+                    raise RuntimeError("verif: callback fails on message %d" % k)
+            before = set(threading.enumerate())
+            t.subscribe("evt.*", callback=cb)
+            for th in set(threading.enumerate()) - before:
+                th.join(10)
+            rest = [m.data for m in t.subscribe("evt.*")]
+            allm = sorted(got + rest)
+            if allm != [float(i) for i in range(total)]:
+                ck.fail_input("C14:callback-subscription:messages-lost-or-duplicated",
+                              "%d messages pending, the callback raises on its message number %d: callback received %s, a later consumer %s -- "
+                              "%d of %d messages delivered" % (total, k, got, rest, len(set(allm)), total),
+                              {"kind": "callback", "total": total, "raise_at": k, "callback_received": got, "later_consumer": rest})
+                break
+    finally:
+        threading.excepthook = old_hook
+
+
 def glob_correspondence(ck, rng, n):
     """Model/Glob.v against the matcher the transport really uses (the `fnmatch` imported by in_memory.py): random
     patterns over literals, *, ?, brackets, !, - and random channel names; compared inside Coq."""
@@ -319,7 +389,9 @@ def glob_correspondence(ck, rng, n):
         return
     PA, NA = "ab.12*?[]!-", "ab.12[]-!"
     fixed_p = ["jobs.[12].cfg", "jobs.[12].*", "jobs.[!1].cfg", "jobs.?.cfg", "*.[sc]*", "[a-b]*", "x[[]1]", "*", "jobs.*.status", "[b-a]", "[!]", "[]a]", "a[b-", ""]
-    fixed_n = ["jobs.1.cfg", "jobs.3.cfg", "jobs.12.cfg", "jobs.1.status", "a", "ab", "x[1]", "data.s1", "]", "[!]", "a[b-", ""]
+    fixed_p += ["jobs.*.cfg", "a*a", "ab*ba", "*.x.*", "x.*x."]     # literal text on both sides of a star, overlapping
+    fixed_n = ["jobs.1.cfg", "jobs.3.cfg", "jobs.12.cfg", "jobs.1.status", "a", "ab", "x[1]", "data.s1", "]", "[!]", "a[b-", "",
+               "jobs.cfg", "jobs..cfg", "aa", "aba", "abba", ".x.", "x.x."]
     cases = [(p, c) for p in fixed_p for c in fixed_n]
     def instance(p_):
         # a name derived from the pattern (so that about half of the cases match): * -> a short run, ? -> one character,
@@ -352,6 +424,7 @@ def glob_correspondence(ck, rng, n):
             continue
         kept.append((p_, c, b))
         lits.append("(%s, %s, %s)" % (cq_str(p_), cq_str(c), "true" if b else "false"))
+    routing_oracle(ck, kept)
     shards = [GLOB_HEADER % ";\n".join(lits[i:i + 1500]) for i in range(0, len(lits), 1500)]
     per, errs = core.mismatches("C14_glob", shards, timeout=600)
     for k, rc, out in errs:
